@@ -1161,7 +1161,54 @@ func (a *A) rulePooledMapCleared(fn *ssa.Function) int {
 			return false
 		}
 		beforeExit := len(clearHeads)+len(clearCalls) > 0 && pathToExitAvoiding(in, isClear, false) == nil
-		a.Check(onGet || beforeExit, construct, in.Pos(), "the pooled map is emptied before its first write after Get (or before every exit)",
+		// (C) emptied before every Put: the pool only ever holds empty maps. Every Put on the same pool, anywhere in
+		// the module, puts a map that a clearing loop (for k := range m { delete(m, k) }) or clear(m) has just
+		// emptied: the loop's header dominates the Put and lies outside it.
+		onPut := false
+		if !onGet && !beforeExit {
+			poolOf := func(cc *ssa.CallCommon) string { return TermOf(cc.Args[0], nil).String() }
+			pool := poolOf(&c.Call)
+			puts, good := 0, 0
+			for _, g := range a.ModFuncs {
+				if g.Pkg != fn.Pkg && ssaPkgOf(g) != ssaPkgOf(fn) {
+					continue
+				}
+				allInstrs(g, func(x ssa.Instruction) {
+					pc, ok := x.(*ssa.Call)
+					if !ok || calleeFull(&pc.Call) != "(*sync.Pool).Put" || poolOf(&pc.Call) != pool {
+						return
+					}
+					puts++
+					v := pc.Call.Args[1]
+					if mi, ok := v.(*ssa.MakeInterface); ok {
+						v = mi.X
+					}
+					cleared := false
+					for _, l := range mapRangeLoops(g) {
+						if l.X != v || l.Blocks[pc.Block()] || !l.Header.Dominates(pc.Block()) {
+							continue
+						}
+						for b := range l.Blocks {
+							for _, y := range b.Instrs {
+								if dc, ok := isBuiltinCall(y, "delete"); ok && dc.Args[0] == v {
+									cleared = true
+								}
+							}
+						}
+					}
+					allInstrs(g, func(y ssa.Instruction) {
+						if cc, ok := isBuiltinCall(y, "clear"); ok && cc.Args[0] == v && dominatesInstr(y, pc) {
+							cleared = true
+						}
+					})
+					if cleared {
+						good++
+					}
+				})
+			}
+			onPut = puts > 0 && good == puts
+		}
+		a.Check(onGet || beforeExit || onPut, construct, in.Pos(), "the pooled map is emptied before its first write after Get (or before every exit, or before every Put on that pool)",
 			"a map taken from the pool can be written without having been emptied, or go back to the pool with the previous row's entries on some path: the next evaluation (of any partition, any instance) sees stale fields")
 	})
 	return n
